@@ -54,6 +54,13 @@ def forced(g, i):
         b = ("interface", "B", ["A"], [("b", r.random() < 0.5, leaf())])
         c = ("alias", "C", [], ("inter", [("ref", "B", []), ("obj", [("c", False, leaf())], None)]))
         return [a, b, c], [("B", ("ref", "B", [])), ("C", ("ref", "C", []))]
+    if k == 4 and (i // 8) % 2 == 1:
+        # optional index signatures: Partial<> of a record / of an object with an index signature (its values may be undefined)
+        vt = r.choice([("num",), ("str",), ("bool",), ("lit", "x")])
+        inner = r.choice([("record", ("str",), vt), ("obj", [("a", False, vt)], (("str",), vt)), ("obj", [], (("str",), vt)),
+                          ("record", ("union", [("lit", "x"), ("lit", "y")]), vt)])
+        return [("alias", "R", [], inner), ("alias", "P", [], ("partial", ("ref", "R", [])))], \
+               [("P", ("ref", "P", [])), ("O", ("obj", [("p", False, ("ref", "P", [])), ("q", True, ("partial", inner))], None)), ("R", ("ref", "R", []))]
     if k == 4:
         rec = ("record", r.choice([("str",), ("union", [("lit", "x"), ("lit", "y")])]), leaf())
         return [("alias", "R", [], rec)], [("R", ("ref", "R", [])), ("M", ("map", ("str",), ("ref", "R", []))), ("S", ("set", leaf()))]
@@ -212,6 +219,7 @@ def check(run):
         emeta.append((i, None, None, None))
     cq = common.run_coq_cases(IMPORTS, exprs, tag="C01", shard=40)
     pos = 0
+    model_parsers, model_envs, printed_differs = collections.defaultdict(dict), {}, set()
     for (i, name, vals, impl) in emeta:
         decls, parsers = progs[i]
         if name is None:
@@ -225,8 +233,10 @@ def check(run):
                 disagree.append(("printed named type", {"program": sources[i], "what": "the emitted named table does not line up with the IR's named types"}))
                 continue
             denv = dict(dumps[i]["env"])
+            model_envs[i] = [(m[a], rename(b, m)) for a, b in model_env.items() if a in m]
             for a, b in model_env.items():
                 if a in m and m[a] in denv and norm(rename(b, m)) != norm(denv[m[a]]):
+                    printed_differs.add(i)
                     disagree.append(("printed named type", {"program": sources[i], "name": a, "model": repr(norm(rename(b, m)))[:700],
                                                             "impl": repr(norm(denv[m[a]]))[:700]}))
             continue
@@ -237,7 +247,9 @@ def check(run):
         if not ptree.startswith("!"):
             mt = model_tree(json.loads(ptree))
             m = name_map([a for a, _ in res[i]["named_ir"]], res[i]["code"]) or {}
+            model_parsers[i][name] = rename(mt, m)
             if norm(rename(mt, m)) != norm(dumps[i]["parsers"][name]):
+                printed_differs.add(i)
                 disagree.append(("printed parser", dict(desc0, model=repr(norm(rename(mt, m)))[:700], impl=repr(norm(dumps[i]["parsers"][name]))[:700])))
         else:
             disagree.append(("printer model fails", dict(desc0, model=ptree)))
@@ -260,7 +272,39 @@ def check(run):
                     else: fails.append(("validator-disagrees-with-meaning-of-IR", dict(desc, ir_membership=spec_ir[q])))
             if q < len(printed) and printed[q] != a:
                 disagree.append(("validate(print(IR)) in the model vs implementation", dict(desc, model=printed[q])))
+    # second chance: where the emitted tree differs from the model's print of the same IR, the values so far were directed by the
+    # emitted tree itself (a validator that lost a part never gets values for that part); direct values by the model's tree instead
+    # and judge the implementation on them against the source type
+    second = 0
+    items2, meta2 = [], []
+    for i in sorted(printed_differs)[:60]:
+        if i not in model_envs or not model_parsers.get(i): continue
+        g2 = gen.Gen(run.seed + 7000 + i)
+        pv = {}
+        for name, mt in model_parsers[i].items():
+            try:
+                vs = [v for v in g2.values_for(mt, model_envs[i], nvals) if not gen.has_bad_keys(v)]
+            except Exception:
+                vs = []
+            if vs: pv[name] = vs
+        if pv:
+            items2.append((res[i]["code"], pv, [])); meta2.append(i)
+    for i, e2 in zip(meta2, cstage.eval_modules(items2)):
+        if "error" in e2: continue
+        decls, parsers = progs[i]
+        for name, x in e2.items():
+            ty = dict(parsers)[name]
+            for v, a in zip(items2[meta2.index(i)][1][name], x["validate"]):
+                src = tsref.judge(decls, ty, v)
+                second += 1
+                if src is not None and a in ("t", "f") and (a == "t") != src:
+                    cls = classify(decls, ty, v, a)
+                    if cls in listed: in_known[cls] += 1
+                    else: fails.append(("validator-disagrees-with-source-type", {"program": sources[i], "parser": name, "value": val_canon(v),
+                                                                                   "validate": a, "source_membership": src,
+                                                                                   "values_directed_by": "the model's print of the IR"}))
     cov = run.coverage
+    cov["spec_checks"]["second chance: values directed by the model's tree where the emitted tree differs"] = {"values_judged": second}
     cov["disagreements_sample"] = [{"stream": a, **{k: str(v)[:900] for k, v in b.items()}} for a, b in disagree[:6]]
     cov["evaluations"] = accept + reject
     cov["distinct_nontrivial"] = min(accept, reject)
